@@ -22,8 +22,6 @@ PARTIAL = [
     "Spendable.as_text/from_text: modelled at field level (the '/'-separated parts; str(int) / int(str) and split/join are "
     "Python's); the text round trip itself is a direct check on the implementation only",
     "as_hex/from_hex: theorem over the model's b2h/h2b (binascii semantics tied by correspondence)",
-    "stream(parse b) = b is proved for b in wire format (the image of the independent serialiser); an intrinsic byte-level "
-    "canonicity predicate (minimal compact sizes, flag 01 ...) is proved for compact sizes only",
 ]
 TRUSTED = ["struct.pack/unpack '<L' '<Q' '!H' '?' as fixed-width codecs (probed live by harness/gens/codecs_c07.py)",
            "object identity / mutability of Tx, TxIn, TxOut is not modelled: a transaction is the value of its fields"]
@@ -557,8 +555,8 @@ def model_cases(rng, tier):
         opt = lambda x: rng.choice([x, x, None])
         dv = (sp[0], sh, hh, sp[3], opt(sp[4]), opt(sp[5]), opt(sp[6]))
         yield Case("sp_from_dict " + " ".join(arg(x) for x in dv), (lambda dv=dv: call(i_sp_from_dict, *dv)))
-        parts = [rng.choice([sp[2][::-1].hex(), "0g", "a"]).encode(), sp[3], rng.choice([sp[1].hex(), "A0b1", "x"]).encode(), sp[0], sp[4],
-                 rng.choice([sp[5], 0, 1, 2, -1, 7]), sp[6], 5, 6][:rng.choice([0, 1, 3, 4, 5, 6, 7, 7, 7, 8, 9])]
+        parts = [rng.choice([sp[2][::-1].hex()] * 4 + ["0g", "a"]).encode(), sp[3], rng.choice([sp[1].hex()] * 3 + ["A0b1", "x"]).encode(), sp[0], sp[4],
+                 rng.choice([sp[5], 0, 1, 2, -1, 7]), sp[6], 5, 6][:rng.choice([0, 1, 3, 4, 4, 5, 6, 7, 7, 7, 8, 9])]
         yield Case("sp_from_text %s" % arg(parts), (lambda parts=parts: call(i_sp_from_text, parts)))
     # compact sizes and strings
     vals = [0, 1, 0xfc, 0xfd, 0xfe, 0xff, 0x100, 0xfffe, 0xffff, 0x10000, 0x10001, U32 - 1, U32, U32 + 1, (1 << 63), U64, U64 + 1, -1, -253, 1 << 70]
@@ -594,6 +592,8 @@ def model_cases(rng, tier):
                 v = rng.choice([True, False])
             else:
                 v = 0
+            if rng.random() < 0.12:       # a value of the wrong type for the codec (struct.error / TypeError / truthiness)
+                v = rng.choice([5, 0, -1, True, False, b"", b"ab"])
             vals.append(v)
         yield Case("stream_struct %s %s" % (arg(fmt), arg(vals)), (lambda fmt=fmt, vals=vals: call(i_stream_struct, fmt, vals)))
         try:
@@ -617,7 +617,8 @@ def model_cases(rng, tier):
         yield Case("b2h %s" % arg(b), (lambda b=b: call(lambda: b2h(b).encode())))
     for v in range(256):
         yield Case("b2h %s" % arg(bytes([v])), (lambda b=bytes([v]): call(lambda: b2h(b).encode())))
-        yield Case("h2b %s" % arg(bytes([v, 0x30])), (lambda s=bytes([v, 0x30]): call(lambda: h2b(s.decode("utf8")))) if v < 128 else (lambda: "!E_VALUE"))
+        st = chr(v) + "0"           # code points >= 0x80 are non-ascii: their UTF-8 bytes are no hex digits
+        yield Case("h2b %s" % arg(st.encode("utf8")), (lambda st=st: call(h2b, st)))
 
 
 # ------------------------------------------------------------------------------------------------
